@@ -21,7 +21,7 @@ RULE = (
     "Hypothesis draws a block out of {GroupNorm, LayerNorm, VectorNeuronNonlinear, MaxNormPool, geom.max_pool, average pooling (functional and MultiImage), GeometricImage.unpool}, d in {2,3}, "
     "every type the block accepts (norms: k<=1 incl. pseudo-scalars and pseudo-vectors; VN and pools: k<=2) in a drawn storage order, channels 1..6 with groups in divisors(channels), patch length in {2,3}, extents "
     "multiples of the patch, the default (non-zero) eps, every learnable leaf (scale, bias, vanilla_norm.weight/bias, mixing weights) replaced by leaf+N(0,1), an activation out of {relu,gelu,tanh}, and an input class "
-    "out of generic N(0,1) / sparse / constant / zero (pooling: generic only, re-drawn until the gap between the two largest norms of every patch exceeds 1e-3). For every g in B_d: block(g.x) == g.block(x) per "
+    "out of generic N(0,1) / sparse / constant / zero (pooling: generic, re-drawn until the gap between the two largest norms of every patch exceeds 1e-3, or a planted near-tie whose two largest norms differ by a relative 2^-11; stored as float32, float16 or bfloat16). For every g in B_d: block(g.x) == g.block(x) per "
     "type with the declared (k,p) (relative 2e-3; average pool / unpool on integers exactly); pooling / unpooling commute with translations by multiples of the patch on tori; unpool then average_pool is the "
     "identity. Non-trivial: parameters away from initialisation, g != e, and the type is not (0,0) or the block is a pool; distinct key = all parameters."
 )
@@ -70,11 +70,15 @@ def draw_case(data, tier):
         shape = [32, 32]
         sig = [[[1, data.draw(st.integers(0, 1), label="p_big")], 16 * groups]]
     inp = "generic"
+    pool_dtype = "float32"
+    if block in ("MaxNormPool", "max_pool"):
+        inp = data.draw(st.sampled_from(["generic", "generic", "near_tie"]), label="pool_input_class")
+        pool_dtype = data.draw(st.sampled_from(["float32", "float32", "float16", "bfloat16"]), label="pool_dtype")
     if block in ("GroupNorm", "LayerNorm", "VN"):
         inp = data.draw(st.sampled_from(["generic", "generic", "generic", "sparse", "constant", "zero"]), label="input_class")
     return {"block": block, "d": d, "shape": shape, "sig": sig, "groups": groups, "patch": patch, "input": inp,
             "act": data.draw(st.sampled_from(sorted(ACTS)), label="act"), "pseed": data.draw(st.integers(0, 99999), label="pseed"),
-            "xseed": data.draw(st.integers(0, 99999), label="xseed"), "use_norm": True}
+            "xseed": data.draw(st.integers(0, 99999), label="xseed"), "use_norm": True, "pool_dtype": pool_dtype}
 
 
 def _make_input(case, seed, kind):
@@ -92,11 +96,31 @@ def _make_input(case, seed, kind):
             a.reshape(-1)[idx] = rng.standard_normal(n)
         elif kind == "constant":
             a = np.ones(shp) * rng.standard_normal((c,) + (1,) * d + (d,) * k)
+        elif kind == "near_tie":
+            # small generic background; in the first patch of the first channel two pixels whose norms differ by a relative
+            # 2^-11 (resolved by float32, not by half precision); the larger one comes LATER in storage order
+            a = 0.05 * rng.standard_normal(shp)
+            P = case["patch"]
+            first = (0,) + (0,) * d
+            last = (0,) + (P - 1,) * d
+            if k == 0:  # |x| is exact in every dtype: a clear winner only
+                a[first] = 1.0
+                a[last] = 1.5
+            else:
+                a[first] = 0.0
+                a[last] = 0.0
+                a[first + (0,) * k] = 1.0
+                a[last + (0,) * k] = 1.0
+                a[last + (0,) * (k - 1) + (1,)] = 2.0**-5
         elif kind == "int":
             a = rng.integers(-4, 5, size=shp).astype(np.float64)
         else:
             a = np.zeros(shp)
-        X[(k, p)] = a.astype(np.float32).astype(np.float64)
+        dt = case.get("pool_dtype", "float32")
+        if dt == "float32":
+            X[(k, p)] = a.astype(np.float32).astype(np.float64)
+        else:  # values rounded to the storage dtype (so that the float64 reference sees exactly what the library sees)
+            X[(k, p)] = np.asarray(jnp.asarray(a, dtype=getattr(jnp, dt)).astype(jnp.float32)).astype(np.float64)
     return X
 
 
@@ -119,13 +143,14 @@ def _build(case):
 def _apply(case, blk, X, tor):
     """Returns dict type -> np array."""
     d, name, patch = case["d"], case["block"], case["patch"]
+    sdt = getattr(jnp, case.get("pool_dtype", "float32"))
     if name in ("GroupNorm", "LayerNorm", "VN", "MaxNormPool", "mi_average_pool"):
-        mi = geom.MultiImage({t: jnp.asarray(a, dtype=jnp.float32) for t, a in X.items()}, d, tor)
+        mi = geom.MultiImage({t: jnp.asarray(a, dtype=sdt if name == "MaxNormPool" else jnp.float32) for t, a in X.items()}, d, tor)
         out = blk(mi) if name != "mi_average_pool" else mi.average_pool(patch)
-        return {t: np.asarray(v) for t, v in out.items()}
+        return {t: np.asarray(v).astype(np.float64) for t, v in out.items()}
     (t, a), = X.items()
     if name == "max_pool":
-        return {t: np.asarray(geom.max_pool(d, jnp.asarray(a[0], dtype=jnp.float32), patch, True))[None]}
+        return {t: np.asarray(geom.max_pool(d, jnp.asarray(a[0], dtype=sdt), patch, True)).astype(np.float64)[None]}
     if name == "average_pool":
         return {t: np.asarray(geom.average_pool(d, jnp.asarray(a[0], dtype=jnp.float32), patch))[None]}
     if name == "unpool":
@@ -145,7 +170,7 @@ def run_case(case):
     tor = (True,) * d
     pooling = name in ("MaxNormPool", "max_pool", "average_pool", "mi_average_pool", "unpool")
     exact = name in ("average_pool", "mi_average_pool", "unpool")
-    labels = ["block_" + name, f"d{d}", "input_" + case["input"], f"patch{patch}"] + [f"type{t[0]}{t[1]}" for t, _ in sig]
+    labels = ["block_" + name, f"d{d}", "input_" + case["input"], f"patch{patch}", "storage_" + case.get("pool_dtype", "float32")] + [f"type{t[0]}{t[1]}" for t, _ in sig]
     if int(np.prod(shape)) * max(c for _, c in sig) >= 16384:
         labels.append("many_samples")
     if name == "GroupNorm":
@@ -159,7 +184,7 @@ def run_case(case):
         # the carve-out "unique maximum" is met by construction: re-draw until every patch has a clear winner
         for attempt in range(20):
             margin = min(ref.max_norm_pool(d, a[c], patch)[1] for a in X.values() for c in range(a.shape[0]))
-            if margin > 1e-3:
+            if margin > (1e-3 if kind == "generic" else 1e-5):
                 break
             xseed += 1
             X = _make_input(case, xseed, kind)
